@@ -49,27 +49,7 @@ Definition oracle_ok11 (c : case11) : bool :=
      truncation of the recorded findings, not staleness) *)
   forallb (fun t => let '(_, sv, fv) := t in (sv =? 888888) || (sv =? fv)) (k_server c).
 
-(* known classes, read off the model's run: 1 = a cache hit on a journal that has include
-   directives (its nested files vanish); 2 = a cache hit on a file examined more than once
-   in the load (not marked visited, so it is listed twice / its cycle is not reported) *)
-Fixpoint dupN (l : list N) : bool :=
-  match l with [] => false | x :: r => memN x r || dupN r end.
-
-Fixpoint known_from (L : limits) (s : lsys) (steps : list lstep) (acc : N) : N :=
-  match steps with
-  | [] => acc
-  | st :: r =>
-      let '(s', out) := lsys_step L s (st_op st) in
-      let acc :=
-        match out with
-        | Some m =>
-            if existsb (fun h => snd h) (o_hits m) then 1
-            else if negb (match o_hits m with [] => true | _ => false end) && dupN (o_seen m) && (acc =? 0) then 2
-            else acc
-        | None => acc
-        end in
-      known_from L s' r acc
-  end.
-Definition known11 (c : case11) : N := known_from (k_lim c) (mkSys (k_fs c) []) (k_steps c) 0.
+(* no recorded finding is left for C11 (the two classes of the pinned tree were repaired) *)
+Definition known11 (c : case11) : N := 0.
 
 Definition judge_all := judge_with tie_ok11 oracle_ok11 known11.
